@@ -37,9 +37,11 @@ def confirm(pid, letter):
 
 def run_check(pid, letter, tier, cases=None):
     patch = os.path.join(CAND, pid, f"{letter}.diff")
-    rc, out = sh(f"git -C /repo apply --3way {patch} || git -C /repo apply {patch}")
+    rc2, st = sh("git -C /repo status --porcelain --untracked-files=no")
+    assert not st.strip(), "repo not clean before apply: " + st
+    rc, out = sh(f"git -C /repo apply {patch} || git -C /repo apply --3way {patch}")
     if rc:
-        sh("git -C /repo checkout -- . ; git -C /repo reset -q")
+        sh("git -C /repo reset -q --hard HEAD")
         return dict(applied=False, why=out[-300:])
     try:
         t = time.time()
@@ -49,7 +51,9 @@ def run_check(pid, letter, tier, cases=None):
         return dict(applied=True, exit=rc, wall_s=round(time.time() - t, 1), caught=(rc == 1),
                     lines=[v[:400] for v in viol[:6]], tail=out[-500:] if rc not in (0, 1) else "")
     finally:
-        sh("git -C /repo checkout -- . ; git -C /repo reset -q")
+        sh("git -C /repo reset -q --hard HEAD")          # (equivalent to `git checkout -- .` after a plain apply; --3way stages)
+        rc2, st = sh("git -C /repo status --porcelain --untracked-files=no")
+        assert not st.strip(), "repo not clean after undo: " + st
 
 def main():
     args = [a for a in sys.argv[1:] if not a.startswith("--")]
